@@ -1,4 +1,5 @@
 import LaunchpadModel.Model.TradingTime
+import LaunchpadModel.Model.TradingTimeX
 /-!
 # C19 — Trading cannot be scheduled past the governance offset or into the past
 
@@ -676,6 +677,380 @@ theorem C19_validated_history (w : World) (ops : List Op) (hinv : OwnerInv w)
       · have hw' : op.isWrite = false := by simpa using hw
         simp only [hw', Bool.false_eq_true, if_false]
         rw [ih1, C19_frame w w1 op hinv (hext op List.mem_cons_self) hw' h]
+
+
+/-! ## Round 3 — what "validated" means for `UpdateStartTradingTime(None)`, and the value-level reading of clause 4
+
+`tradingUpdateOk … none = true`: the minter accepts `None` from its admin at EVERY clock value and the collection then shows no
+trading time at all. `C19_validated` is true as stated (the write is a "validated write": `ValidWrite` for `req = none` asserts
+the admin check only), but for such a write the sentence "the value visible … is always one the minter validated" speaks of no
+value. The property text constrains *values* ("the value is no later than …", "sets it earlier than the current time"), so this
+is not a contradiction of a literal clause; whether a consumer reads `None` as "tradable now" is outside the launchpad
+repository. It is made explicit here instead of being an observation in the notes: -/
+
+/-- `UpdateStartTradingTime(None)` from the admin is accepted whatever the clock, mint start and offset are (collection with the
+message, owned by the minter), and clears the visible value. -/
+theorem C19_none_clears (w : World) (m : Minter) (c : Coll) (hmc : w.mc = some (m, c))
+    (hk : c.kind.hasTradingMsg = true) (ho : c.owner = some w.minterAddr) :
+    ∃ w', step w (.updTrading (adminOf w.family m c) none 0) = .ok w' ∧ visible w' = some none := by
+  refine ⟨{ w with mc := some (m, { c with trading := none }) }, ?_, rfl⟩
+  simp [step, updTrading, hmc, tradingUpdateOk, Coll.updateTrading, hk, ho]
+
+/-- once the clock has passed mint start + offset, EVERY concrete value is refused (from anybody, with or without funds) —
+and yet the admin can still clear the value. -/
+theorem C19_none_accepted_when_every_value_refused (w : World) (m : Minter) (c : Coll) (hmc : w.mc = some (m, c))
+    (hfam : w.family ≠ .base) (hk : c.kind.hasTradingMsg = true) (ho : c.owner = some w.minterAddr)
+    (hlate : m.mintStart + w.offset * 1000000000 < w.now) :
+    (∀ s t f, ¬ ∃ w', step w (.updTrading s (some t) f) = .ok w') ∧
+    (∃ w', step w (.updTrading (adminOf w.family m c) none 0) = .ok w' ∧ visible w' = some none) := by
+  refine ⟨?_, C19_none_clears w m c hmc hk ho⟩
+  intro s t f h
+  obtain ⟨_, _, hb, _⟩ := (C19_update_iff w m c hmc s f (some t)).1 h
+  obtain ⟨h1, h2⟩ := hb t rfl
+  have := h2 hfam
+  omega
+
+/-- VALUE-level form of clause 4 (what `C19_validated` gives when the collection shows a concrete value `v`): the history
+contains a successful write that stored exactly `v`, and it is either a creation whose bound (non-base) held with the offset of
+THAT state, or a minter update `UpdateStartTradingTime(Some v)` with `now ≤ v` and (non-base) `v ≤ mintStart + offset·10⁹` in
+THAT state. (For a visible `None` only the admin check is asserted: `C19_none_clears`.) -/
+theorem C19_visible_value_validated (w0 : World) (ops : List Op) (h0 : w0.mc = none)
+    (hext : ∀ op ∈ ops, op.External w0.minterAddr) (v : Nat) (hv : visible (run w0 ops) = some (some v)) :
+    ∃ ops₁ op ops₂ w₂, ops = ops₁ ++ op :: ops₂ ∧ step (run w0 ops₁) op = .ok w₂ ∧ visible w₂ = some (some v) ∧
+      ((∃ k cr start e req, op = .create k cr start e req ∧
+          ((run w0 ops₁).family ≠ .base → v ≤ start + (run w0 ops₁).offset * 1000000000) ∧
+          (∀ x, req = some x → v = x)) ∨
+       (∃ s f m c, op = .updTrading s (some v) f ∧ (run w0 ops₁).mc = some (m, c) ∧
+          s = adminOf (run w0 ops₁).family m c ∧ (run w0 ops₁).now ≤ v ∧
+          ((run w0 ops₁).family ≠ .base → v ≤ m.mintStart + (run w0 ops₁).offset * 1000000000))) := by
+  rcases C19_validated w0 ops h0 hext with hn | ⟨o1, op, o2, w2, he, hs, hvw, hvis⟩
+  · rw [hn] at hv; cases hv
+  · rw [hvis] at hv
+    refine ⟨o1, op, o2, w2, he, hs, hv, ?_⟩
+    cases op with
+    | create k cr start e req =>
+      simp only [ValidWrite] at hvw
+      obtain ⟨v', hv', hb, _, hx⟩ := hvw
+      rw [hv] at hv'
+      have hvv : v = v' := by simpa using hv'
+      subst hvv
+      exact .inl ⟨k, cr, start, e, req, rfl, fun hf => (hb hf).1, hx⟩
+    | updTrading s req f =>
+      simp only [ValidWrite] at hvw
+      obtain ⟨m, c, hmc, hsd, hv', hb⟩ := hvw
+      rw [hv] at hv'
+      have hreq : req = some v := by simpa using hv'.symm
+      subst hreq
+      obtain ⟨h1, h2⟩ := hb v rfl
+      exact .inr ⟨s, f, m, c, rfl, hmc, hsd, h1, h2⟩
+    | setTime _ => exact absurd hvw (by simp [ValidWrite])
+    | sudoOffset _ => exact absurd hvw (by simp [ValidWrite])
+    | updStart _ _ _ => exact absurd hvw (by simp [ValidWrite])
+    | updEnd _ _ _ => exact absurd hvw (by simp [ValidWrite])
+    | collTrading _ _ => exact absurd hvw (by simp [ValidWrite])
+    | collCreator _ _ => exact absurd hvw (by simp [ValidWrite])
+    | collFreeze _ => exact absurd hvw (by simp [ValidWrite])
+    | collOwn _ _ => exact absurd hvw (by simp [ValidWrite])
+
+/-! ## Round 3 — the run-time message surface (`LP.TT.stepX`, what the driver executes)
+
+`OpX` adds to `Op`: factory migration with a params message (`migFactory`), messages / migrations that are inert for this aspect
+(`inert` — a modelling claim validated by the harness only), the EFFECTS of messages whose acceptance rules other properties own
+(`env`), and creation with the implementation's verdict as a witness (`createW`: the bound/default is still CHECKED).
+The theorems below show (a) `stepX` generalises `step` (the unwitnessed model is the special case in which the environment
+follows the written rules), (b) the creation bound/default holds for EVERY witnessed creation, (c) frame + ownership invariant +
+validated-history for all `OpX` histories, (d) the offset in force after any history is the one governance last set explicitly —
+the ghost the harness's monitors use. -/
+
+theorem TT.tradingAtCreate_of_createTrading {fam : Family} {now off start : Nat} {end_ req tr : Option Nat}
+    (h : createTrading fam now off start end_ req = .ok tr) : tradingAtCreate fam now off start req = .ok tr := by
+  cases fam with
+  | base => cases req <;> simpa [createTrading, tradingAtCreate] using h
+  | openEdition =>
+    simp only [createTrading] at h
+    simpa [tradingAtCreate] using (ite_err_ok (ite_err_ok h).2).2
+  | vending =>
+    simp only [createTrading] at h
+    simpa [tradingAtCreate] using (ite_err_ok (ite_err_ok h).2).2
+  | tokenMerge =>
+    simp only [createTrading] at h
+    simpa [tradingAtCreate] using (ite_err_ok (ite_err_ok h).2).2
+
+theorem TT.updStart_ok' {w w' : World} {s t f : Nat} (h : step w (.updStart s t f) = .ok w') :
+    w.family ≠ .base ∧ ∃ m c, w.mc = some (m, c) ∧ w' = { w with mc := some ({ m with mintStart := t }, c) } := by
+  obtain ⟨m, c, hmc, hw'⟩ := updStart_ok h
+  refine ⟨?_, m, c, hmc, hw'⟩
+  intro hb
+  simp [step, updStart, hmc, hb] at h
+
+/-- (a) `stepX` generalises `step`: whenever the unwitnessed model accepts, the witnessed op with verdict "accepted" yields the
+same state. -/
+theorem C19_x_generalises (w w' : World) :
+    (∀ k cr st e r, step w (.create k cr st e r) = .ok w' → stepX w (.createW k cr st e r true) = .ok w') ∧
+    (∀ s t f, step w (.updStart s t f) = .ok w' → stepX w (.env (.startSet t)) = .ok w') ∧
+    (∀ s t f, step w (.updEnd s t f) = .ok w' → stepX w (.env (.endSet t)) = .ok w') ∧
+    (∀ s n, step w (.collCreator s n) = .ok w' → stepX w (.env (.creatorSet n)) = .ok w') ∧
+    (∀ s, step w (.collFreeze s) = .ok w' → stepX w (.env .frozenSet) = .ok w') := by
+  refine ⟨?_, ?_, ?_, ?_, ?_⟩
+  · intro k cr st e r h
+    obtain ⟨hmc, tr, htr, hw'⟩ := create_ok h
+    simp [stepX, createW, hmc, tradingAtCreate_of_createTrading htr, hw']
+  · intro s t f h
+    obtain ⟨hf, m, c, hmc, hw'⟩ := updStart_ok' h
+    simp [stepX, applyEnv, hmc, hf, hw']
+  · intro s t f h
+    obtain ⟨m, c, hmc, hw'⟩ := updEnd_ok h
+    simp [stepX, applyEnv, hmc, hw']
+  · intro s n h
+    obtain ⟨m, c, c', hmc, hc, hw'⟩ := onColl_ok h
+    simp only [Coll.updateCreator] at hc
+    repeat' split at hc
+    all_goals first | (cases hc; done) | (injection hc with hc; subst hc; simp [stepX, applyEnv, hmc, hw'])
+  · intro s h
+    obtain ⟨m, c, c', hmc, hc, hw'⟩ := onColl_ok h
+    simp only [Coll.freeze] at hc
+    repeat' split at hc
+    all_goals first | (cases hc; done) | (injection hc with hc; subst hc; simp [stepX, applyEnv, hmc, hw'])
+
+theorem TT.createW_ok {w w' : World} {kind : CollKind} {creator start : Nat} {end_ req : Option Nat} {acc : Bool}
+    (h : stepX w (.createW kind creator start end_ req acc) = .ok w') :
+    w.mc = none ∧ acc = true ∧ ∃ tr, tradingAtCreate w.family w.now w.offset start req = .ok tr ∧
+      w' = { w with mc := some (mkMinter w.family creator start end_, Coll.init kind w.minterAddr creator tr) } := by
+  simp only [stepX, createW] at h
+  split at h
+  · cases h
+  · rename_i hmc
+    split at h
+    · cases h
+    · rename_i tr htr
+      split at h
+      · rename_i hacc
+        injection h with h
+        exact ⟨hmc, hacc, tr, htr, h.symm⟩
+      · cases h
+
+/-- (b) EVERY creation the implementation reports as accepted and the model does not contradict satisfies the bound and the
+default — whatever the other (C04-owned) time rules of creation are. -/
+theorem C19_x_create_bound (w w' : World) (kind : CollKind) (creator start : Nat) (end_ req : Option Nat) (acc : Bool)
+    (h : stepX w (.createW kind creator start end_ req acc) = .ok w') :
+    ∃ m c t, w'.mc = some (m, c) ∧ c.trading = some t ∧ (∀ x, req = some x → t = x) ∧
+      (w.family ≠ .base → t ≤ start + w.offset * 1000000000 ∧ (req = none → t = start + w.offset * 1000000000)) ∧
+      (w.family = .base → req = none → t = w.now + w.offset * 1000000000) ∧
+      c.owner = some w.minterAddr ∧ c.pending = none := by
+  obtain ⟨_, _, tr, htr, hw'⟩ := createW_ok h
+  subst hw'
+  by_cases hf : w.family = .base
+  · rw [hf] at htr
+    have htr' : createTrading .base w.now w.offset start end_ req = .ok tr := by
+      cases req <;> simpa [tradingAtCreate, createTrading] using htr
+    obtain ⟨t, rfl, hd, hx⟩ := createTrading_ok_base htr'
+    exact ⟨_, _, t, rfl, rfl, hx, fun h => absurd hf h, fun _ => hd, rfl, rfl⟩
+  · have hb : boundedOrDefault start w.offset req = .ok tr := by
+      cases hfam : w.family with
+      | base => exact absurd hfam hf
+      | vending => simpa [tradingAtCreate, hfam] using htr
+      | openEdition => simpa [tradingAtCreate, hfam] using htr
+      | tokenMerge => simpa [tradingAtCreate, hfam] using htr
+    obtain ⟨t, rfl, hle, hd, hx⟩ := boundedOrDefault_ok hb
+    exact ⟨_, _, t, rfl, rfl, hx, fun _ => ⟨hle, hd⟩, fun h => absurd h hf, rfl, rfl⟩
+
+/-- a creation beyond the bound is refused by the model even when the implementation reports "accepted" (that is the
+disagreement the correspondence reports) -/
+theorem C19_x_create_rejects_past_bound (w : World) (kind : CollKind) (creator start t : Nat) (end_ : Option Nat) (acc : Bool)
+    (hfam : w.family ≠ .base) (ht : t > start + w.offset * 1000000000) :
+    ∃ e, stepX w (.createW kind creator start end_ (some t) acc) = .error e := by
+  cases h : stepX w (.createW kind creator start end_ (some t) acc) with
+  | error e => exact ⟨e, rfl⟩
+  | ok w' =>
+    obtain ⟨_, _, t', _, _, hx, hb, _⟩ := C19_x_create_bound w w' kind creator start end_ (some t) acc h
+    have := hx t rfl
+    have := (hb hfam).1
+    omega
+
+def TT.OpX.External (a : Addr) : OpX → Prop
+  | .base op => op.External a
+  | _ => True
+
+def TT.OpX.isWrite : OpX → Bool
+  | .base op => op.isWrite
+  | .createW .. => true
+  | _ => false
+
+theorem TT.applyEnv_ok {w w' : World} {e : EnvEffect} (h : applyEnv w e = .ok w') :
+    ∃ m c m' c', w.mc = some (m, c) ∧ w' = { w with mc := some (m', c') } ∧
+      c'.trading = c.trading ∧ c'.owner = c.owner ∧ c'.pending = c.pending := by
+  simp only [applyEnv] at h
+  split at h
+  · cases h
+  · rename_i m c hmc
+    cases e with
+    | startSet t =>
+      simp only at h
+      split at h
+      · cases h
+      · injection h with h; exact ⟨m, c, _, _, hmc, h.symm, rfl, rfl, rfl⟩
+    | endSet t => injection h with h; exact ⟨m, c, _, _, hmc, h.symm, rfl, rfl, rfl⟩
+    | creatorSet a => injection h with h; exact ⟨m, c, _, _, hmc, h.symm, rfl, rfl, rfl⟩
+    | frozenSet => injection h with h; exact ⟨m, c, _, _, hmc, h.symm, rfl, rfl, rfl⟩
+
+theorem TT.stepX_static {w w' : World} {op : OpX} (h : stepX w op = .ok w') :
+    w'.minterAddr = w.minterAddr ∧ w'.family = w.family := by
+  cases op with
+  | base op => exact step_static h
+  | migFactory v => exact step_static (op := .sudoOffset v) h
+  | inert => simp only [stepX] at h; injection h with h; subst h; exact ⟨rfl, rfl⟩
+  | env e =>
+    obtain ⟨_, _, _, _, _, hw', _⟩ := applyEnv_ok h
+    subst hw'; exact ⟨rfl, rfl⟩
+  | createW k cr st e r acc =>
+    obtain ⟨_, _, _, _, hw'⟩ := createW_ok h
+    subst hw'; exact ⟨rfl, rfl⟩
+
+theorem TT.ownerInvX_step {w w' : World} {op : OpX} (hinv : OwnerInv w) (hext : op.External w.minterAddr)
+    (h : stepX w op = .ok w') : OwnerInv w' := by
+  cases op with
+  | base op => exact ownerInv_step hinv hext h
+  | migFactory v => exact ownerInv_step (op := .sudoOffset v) hinv trivial h
+  | inert => simp only [stepX] at h; injection h with h; subst h; exact hinv
+  | env e =>
+    obtain ⟨m, c, m', c', hmc, hw', _, ho, hp⟩ := applyEnv_ok h
+    subst hw'
+    intro m'' c'' hmc'
+    simp only [Option.some.injEq, Prod.mk.injEq] at hmc'
+    obtain ⟨_, rfl⟩ := hmc'
+    rw [ho, hp]
+    exact hinv m c hmc
+  | createW k cr st e r acc =>
+    obtain ⟨_, _, _, _, hw'⟩ := createW_ok h
+    subst hw'
+    intro m c hmc
+    simp only [Option.some.injEq, Prod.mk.injEq] at hmc
+    obtain ⟨_, rfl⟩ := hmc
+    exact ⟨rfl, rfl⟩
+
+/-- (c) FRAME over the whole surface: factory migration, inert messages / migrations, env effects (mint-start / end-time moves,
+creator change, freeze) and every non-write `Op` leave the visible trading time untouched. -/
+theorem C19_x_frame (w w' : World) (op : OpX) (hinv : OwnerInv w) (hext : op.External w.minterAddr)
+    (hw : op.isWrite = false) (h : stepX w op = .ok w') : visible w' = visible w := by
+  cases op with
+  | base op => exact C19_frame w w' op hinv hext hw h
+  | migFactory v => exact C19_frame w w' (.sudoOffset v) hinv trivial rfl h
+  | inert => simp only [stepX] at h; injection h with h; subst h; rfl
+  | env e =>
+    obtain ⟨m, c, m', c', hmc, hw', htr, _, _⟩ := applyEnv_ok h
+    subst hw'
+    simp [visible, hmc, htr]
+  | createW k cr st e r acc => simp [OpX.isWrite] at hw
+
+theorem TT.runX_cons (w : World) (op : OpX) (ops : List OpX) : runX w (op :: ops) = runX (stepX' w op) ops := rfl
+theorem TT.stepX'_ok {w w' : World} {op : OpX} (h : stepX w op = .ok w') : stepX' w op = w' := by simp [stepX', h]
+theorem TT.stepX'_err {w : World} {op : OpX} {e : Err} (h : stepX w op = .error e) : stepX' w op = w := by simp [stepX', h]
+
+/-- the values stored by the validated writes of an `OpX` history, oldest first -/
+def TT.validatedHistoryX (w : World) : List OpX → List (Option (Option Nat))
+  | [] => []
+  | op :: ops =>
+    match stepX w op with
+    | .ok w' => if op.isWrite then visible w' :: validatedHistoryX w' ops else validatedHistoryX w' ops
+    | .error _ => validatedHistoryX w ops
+
+/-- (c) over EVERY history of the extended surface: the collection stays owned by the minter with nothing pending, and the
+visible value is the one stored by the most recent successful creation / minter update. -/
+theorem C19_x_validated_history (w : World) (ops : List OpX) (hinv : OwnerInv w)
+    (hext : ∀ op ∈ ops, op.External w.minterAddr) :
+    OwnerInv (runX w ops) ∧
+    visible (runX w ops) = ((validatedHistoryX w ops).getLast?).getD (visible w) := by
+  induction ops generalizing w with
+  | nil => exact ⟨hinv, rfl⟩
+  | cons op ops ih =>
+    rw [runX_cons]
+    cases h : stepX w op with
+    | error e =>
+      rw [stepX'_err h]
+      simp only [validatedHistoryX, h]
+      exact ih w hinv (fun o ho => hext o (List.mem_cons_of_mem _ ho))
+    | ok w1 =>
+      rw [stepX'_ok h]
+      obtain ⟨ha, _⟩ := stepX_static h
+      have hinv1 := ownerInvX_step hinv (hext op List.mem_cons_self) h
+      obtain ⟨ih0, ih1⟩ := ih w1 hinv1 (fun o ho => by rw [ha]; exact hext o (List.mem_cons_of_mem _ ho))
+      refine ⟨ih0, ?_⟩
+      simp only [validatedHistoryX, h]
+      by_cases hw : op.isWrite = true
+      · simp only [hw, if_true]
+        rw [ih1]
+        cases hl : validatedHistoryX w1 ops with
+        | nil => simp
+        | cons a l => rw [List.getLast?_cons_cons]; exact getLast?_getD_cons a l _ _
+      · have hw' : op.isWrite = false := by simpa using hw
+        simp only [hw', Bool.false_eq_true, if_false]
+        rw [ih1, C19_x_frame w w1 op hinv (hext op List.mem_cons_self) hw' h]
+
+theorem TT.step_offset {w w' : World} {op : Op} (h : step w op = .ok w') :
+    w'.offset = ghostStep w.offset (.base op) ∨ (∃ v, op = .sudoOffset v) := by
+  cases op with
+  | setTime t => simp only [step] at h; injection h with h; subst h; exact .inl rfl
+  | sudoOffset v => exact .inr ⟨v, rfl⟩
+  | create kind creator start end_ req => obtain ⟨_, _, _, hw'⟩ := create_ok h; subst hw'; exact .inl rfl
+  | updTrading s req f => obtain ⟨_, _, _, _, _, _, _, _, hw'⟩ := updTrading_ok h; subst hw'; exact .inl rfl
+  | updStart s t f => obtain ⟨_, _, _, hw'⟩ := updStart_ok h; subst hw'; exact .inl rfl
+  | updEnd s t f => obtain ⟨_, _, _, hw'⟩ := updEnd_ok h; subst hw'; exact .inl rfl
+  | collTrading s req => obtain ⟨_, _, _, _, _, hw'⟩ := onColl_ok h; subst hw'; exact .inl rfl
+  | collCreator s n => obtain ⟨_, _, _, _, _, hw'⟩ := onColl_ok h; subst hw'; exact .inl rfl
+  | collFreeze s => obtain ⟨_, _, _, _, _, hw'⟩ := onColl_ok h; subst hw'; exact .inl rfl
+  | collOwn s a => obtain ⟨_, _, _, _, _, hw'⟩ := onColl_ok h; subst hw'; exact .inl rfl
+
+theorem TT.stepX'_offset (w : World) (op : OpX) : (stepX' w op).offset = ghostStep w.offset op := by
+  cases h : stepX w op with
+  | error e =>
+    rw [stepX'_err h]
+    cases op with
+    | base op =>
+      cases op with
+      | sudoOffset v => simp [stepX, step] at h
+      | _ => rfl
+    | migFactory v => simp [stepX, step] at h
+    | _ => rfl
+  | ok w1 =>
+    rw [stepX'_ok h]
+    cases op with
+    | base op =>
+      rcases step_offset (show step w op = .ok w1 from h) with h1 | ⟨v, rfl⟩
+      · exact h1
+      · simp only [stepX, step] at h; injection h with h; subst h
+        cases v <;> rfl
+    | migFactory v =>
+      simp only [stepX, step] at h; injection h with h; subst h
+      cases v <;> rfl
+    | inert => simp only [stepX] at h; injection h with h; subst h; rfl
+    | env e => obtain ⟨_, _, _, _, _, hw', _⟩ := applyEnv_ok h; subst hw'; rfl
+    | createW k cr st e r acc => obtain ⟨_, _, _, _, hw'⟩ := createW_ok h; subst hw'; rfl
+
+/-- (d) "the factory's maximum trading offset IN FORCE": after any history of the extended surface the offset the minters read is
+the one governance last set explicitly (sudo or factory migration naming a value); partial updates that omit it, failed ops,
+migrations of other contracts and every other message leave it alone. `ghostOffset` is literally the record the harness keeps
+(`g_off` in c19.rs) and evaluates its bound monitors on. -/
+theorem C19_x_offset_in_force (w : World) (ops : List OpX) : (runX w ops).offset = ghostOffset w.offset ops := by
+  induction ops generalizing w with
+  | nil => rfl
+  | cons op ops ih =>
+    rw [runX_cons, ih (stepX' w op), stepX'_offset]
+    rfl
+
+/-- hence an accepted minter update after ANY history respects `now ≤ t ≤ mintStart + (last explicitly set offset)` -/
+theorem C19_x_update_bound_ghost (w0 : World) (ops : List OpX) (s t f : Nat) (w' : World)
+    (h : stepX (runX w0 ops) (.base (.updTrading s (some t) f)) = .ok w') :
+    ∃ m c, (runX w0 ops).mc = some (m, c) ∧ (runX w0 ops).now ≤ t ∧
+      ((runX w0 ops).family ≠ .base → t ≤ m.mintStart + ghostOffset w0.offset ops * 1000000000) ∧
+      visible w' = some (some t) := by
+  obtain ⟨m, c, hmc, h1, h2, h3⟩ := C19_update_bound (runX w0 ops) w' s t f h
+  rw [C19_x_offset_in_force] at h2
+  exact ⟨m, c, hmc, h1, h2, h3⟩
+
+-- a partial governance update (sudo or migrate) keeps the explicit value; the stored default is computed from it
+example : ghostOffset 604800 [.base (.sudoOffset (some 100)), .base (.sudoOffset none), .migFactory none, .inert] = 100 := by rfl
+example : (runX (init .vending 5 604800 999) [.base (.sudoOffset (some 100)), .migFactory none,
+    .createW .base 10 (GENESIS + 7) none none true]).mc.map (·.2.trading) = some (some (GENESIS + 7 + 100 * 1000000000)) := by rfl
 
 /-! ## Non-vacuity: concrete states satisfying the hypotheses (and the "in force at that moment" reading) -/
 
